@@ -1177,35 +1177,58 @@ def falsify(ctx, hints):
         npd = rng.randint(1, 9)
         nvar = rng.choice([1, 2, 3, 4])
         sel = rng.sample(names, rng.randint(1, len(names))) + (["absent"] if rng.random() < 0.3 else [])
-        fb = {nm: rand_value(rng) for nm in sel if rng.random() < 0.3}
-        ow = {nm: rand_value(rng) for nm in sel if rng.random() < 0.15}
+        def _decl(p):
+            # a declared fallback / overwrite: one number, or one number per variant (consumed exhaust-then-last)
+            return {nm: (rand_value(rng) if rng.random() < 0.6 else [rand_value(rng) for _ in range(rng.randint(1, 3))])
+                    for nm in sel if rng.random() < p}
+        fb = _decl(0.35)
+        ow = _decl(0.2)
+        # base span: a contiguous block of columns inside the dataslate span; with clip_data_to_base_span=True the
+        # input data outside it is cleared (before the declared fallbacks and overwrites are applied)
+        clip = rng.random() < 0.5
+        base_cols = None
+        if rng.random() < 0.6:
+            a = rng.randint(0, npd - 1)
+            base_cols = list(range(a, rng.randint(a, npd - 1) + 1))
         inp = {"db": spec, "names": sel, "freq": f, "from": frm, "periods": npd, "num_variants": nvar, "fallbacks": fb,
-               "overwrites": ow}
-        repro = "Dataslate.from_databox(db, names, span, num_variants=nvar, fallbacks=fb, overwrites=ow).to_databox(trim=False)"
+               "overwrites": ow, "clip_data_to_base_span": clip, "base_columns": base_cols}
+        repro = ("Dataslate.from_databox(db, names, span, num_variants=nvar, fallbacks=fb, overwrites=ow, "
+                 "clip_data_to_base_span=clip, base_columns=base_columns).to_databox(trim=False)")
         try:
             db = mk_db(spec)
             span = ir.Span(sc.mk_period(f, frm), sc.mk_period(f, frm + npd - 1))
-            ds = Dataslate.from_databox(db, sel, span, num_variants=nvar, fallbacks=fb or None, overwrites=ow or None)
+            kw = {} if base_cols is None else {"base_columns": tuple(base_cols)}
+            ds = Dataslate.from_databox(db, sel, span, num_variants=nvar, fallbacks=fb or None, overwrites=ow or None,
+                                        clip_data_to_base_span=clip, **kw)
             back = ds.to_databox(trim=False)
             info["slate_roundtrips"] += 1
         except Exception as e:  # noqa
             add("slate:raises", f"dataslate round trip raises {type(e).__name__}: {e}"[:200], inp, repr(e)[:200], None, repro)
             continue
+
+        def _at(v, k):
+            return v[min(k, len(v) - 1)] if isinstance(v, list) else v
         for nm in sel:
             want = np.full((npd, nvar), np.nan)
             if nm in db:
                 x = db[nm]
                 for k in range(nvar):
                     want[:, k] = x.get_data(span, min(k, x.num_variants - 1)).reshape(-1)
-            if nm in fb:
-                want[np.isnan(want)] = fb[nm]
-            if nm in ow:
-                want[:, :] = ow[nm]
+            if clip:
+                outside = [c for c in range(npd) if c not in (base_cols or [])]
+                want[outside, :] = np.nan
+            for k in range(nvar):
+                if nm in fb:
+                    col = want[:, k]
+                    col[np.isnan(col)] = _at(fb[nm], k)
+                if nm in ow:
+                    want[:, k] = _at(ow[nm], k)
             y = back[nm]
             got = y.get_data(span)
             outside_ok = (y.start is None) or (y.start >= span.start and y.end <= span.end)
             if not _same_values(got, want) or not outside_ok:
-                add("slate:values", f"values of {nm!r} differ after databox -> dataslate -> databox", inp, got.tolist(),
+                key = "slate:values:clip-to-base-span" if clip else "slate:values"
+                add(key, f"values of {nm!r} differ after databox -> dataslate -> databox", inp, got.tolist(),
                     want.tolist(), repro)
         if len(fails) > 12:
             break
@@ -1218,7 +1241,7 @@ def falsify(ctx, hints):
         A, B = mk_db(sa), mk_db(sb)
         before = dict(observe_db(A))
         order_before = list(A.keys())
-        op = rng.choice(["remove", "keep", "rename", "overlay", "underlay", "clip", "merge", "copy", "prepend"])
+        op = rng.choice(["remove", "keep", "rename", "rename", "overlay", "underlay", "clip", "merge", "copy", "copy", "prepend"])
         inp = {"self": sa, "other": sb, "op": op}
         info["frame_checks"] += 1
         try:
@@ -1236,20 +1259,30 @@ def falsify(ctx, hints):
                     A.keep(l)
                     after = dict(observe_db(A))
                     want = {k: v for k, v in before.items() if k in l}
-                elif op == "rename":
-                    l = rng.sample(order_before, min(2, len(order_before)))
-                    inp["names"] = l
-                    A.rename(l, lambda nm: "renamed_" + nm)
-                    after = dict(observe_db(A))
-                    want = {("renamed_" + k if k in l else k): v for k, v in before.items()}
-                elif op == "copy":
-                    l = rng.sample(order_before, min(2, len(order_before)))
-                    inp["names"] = l
-                    C = A.copy(l, lambda nm: "copy_" + nm)
-                    after = dict(observe_db(C))
-                    want = {"copy_" + k: before[k] for k in l}
-                    if dict(observe_db(A)) != before and not _obs_equal_db(dict(observe_db(A)), before):
-                        add("ops:copy-modifies-source", "copy modified its source", inp)
+                elif op in ("rename", "copy"):
+                    l = rng.sample(order_before, min(3, len(order_before)))
+                    if rng.random() < 0.6:
+                        # an explicit target list; a source name that is absent is dropped together with its own target
+                        for _ in range(rng.randint(0, 2)):
+                            l.insert(rng.randint(0, len(l)), rng.choice(["absent", "missing"]))
+                        tg = [f"t{i}_{nm}" for i, nm in enumerate(l)]
+                        inp["names"], inp["targets"] = list(l), list(tg)
+                        arg = list(tg)
+                        ren = {s_: t_ for s_, t_ in zip(l, tg) if s_ in before}
+                    else:
+                        inp["names"], inp["targets"] = list(l), "lambda n: 'new_' + n"
+                        arg = lambda nm: "new_" + nm     # noqa
+                        ren = {k: "new_" + k for k in l}
+                    if op == "rename":
+                        A.rename(list(l), arg)
+                        after = dict(observe_db(A))
+                        want = {ren.get(k, k): v for k, v in before.items()}
+                    else:
+                        C = A.copy(list(l), arg)
+                        after = dict(observe_db(C))
+                        want = {t_: before[s_] for s_, t_ in ren.items()}
+                        if not _obs_equal_db(dict(observe_db(A)), before):
+                            add("ops:copy-modifies-source", "copy modified its source", inp)
                 elif op in ("overlay", "underlay", "prepend"):
                     Bc = B.copy()
                     if op == "prepend":
